@@ -25,6 +25,9 @@ type Streamer struct {
 	sendTransaction SendTransactionFunc
 	errChan         <-chan *Error
 	ctx             context.Context
+	// lastErr is what Error() answered for the current attempt: the reader
+	// posts its reason once, a second Error() call repeats the answer
+	lastErr error
 }
 
 //SendTransactionFunc 处理事务信息函数，你可以将一个chan注册到这个函数中如
@@ -81,6 +84,7 @@ func (s *Streamer) Stream(ctx context.Context, sendTransaction SendTransactionFu
 		return err.msgf("startDumpFromBinlogPosition fail in pos: %+v", s.nowPos)
 	}
 	s.errChan = conn.errChan
+	s.lastErr = nil
 	pos, err = s.parseEvents(ctx, events)
 	s.SetBinlogPosition(pos)
 	if err != nil {
@@ -102,15 +106,16 @@ func (s *Streamer) Error() error {
 			case s.ctx.Err() == context.Canceled && !err.unprompted:
 				// stopped by the caller; a stream that had already ended for
 				// another reason keeps that reason even if the caller cancels later
-				return nil
+				s.lastErr = nil
 			case err.Original() == context.Canceled,
 				err.Original() == errStreamEOF:
-				return nil
+				s.lastErr = nil
 			default:
-				return err
+				s.lastErr = err
 			}
 		}
-		return nil
+		// (channel closed: the reason was already collected by an earlier call)
+		return s.lastErr
 	}
 }
 
